@@ -68,7 +68,7 @@ class Table:
         for r in self.rows:
             name = r["Component"]
             ph = r.get("Phase", "") if self.has_phase else ""
-            if name == "System average":
+            if name == "System average" and r.get("Type", "") == "":
                 self.average = r
                 continue
             if ph not in self.comp:
